@@ -1,13 +1,13 @@
 #!/usr/bin/env python3
-"""save_seeded.py <id> <breaks> <caught_by comma list> <needs...>  : copies patch/demo from /tmp/wt14_out/<id> into /verif/seeded/<name>/ with meta.json"""
+"""save_seeded.py <id> <breaks> <caught_by comma list> <needs...>  : copies patch/demo from /tmp/wt15_out/<id> into /verif/seeded/<name>/ with meta.json"""
 import json, shutil, sys, os
 src_id, name, breaks, caught = sys.argv[1], sys.argv[2], sys.argv[3], sys.argv[4].split(",")
 needs = " ".join(sys.argv[5:])
 d = f"/verif/seeded/{name}"
 os.makedirs(d, exist_ok=True)
-shutil.copy(f"/tmp/wt14_out/{src_id}/patch.diff", f"{d}/patch.diff")
-shutil.copy(f"/tmp/wt14_out/{src_id}/demo.py", f"{d}/demo.py")
-notes = open(f"/tmp/wt14_out/{src_id}/notes.md").read() if os.path.exists(f"/tmp/wt14_out/{src_id}/notes.md") else ""
+shutil.copy(f"/tmp/wt15_out/{src_id}/patch.diff", f"{d}/patch.diff")
+shutil.copy(f"/tmp/wt15_out/{src_id}/demo.py", f"{d}/demo.py")
+notes = open(f"/tmp/wt15_out/{src_id}/notes.md").read() if os.path.exists(f"/tmp/wt15_out/{src_id}/notes.md") else ""
 meta = dict(id=name, breaks_property=breaks, origin="independent sub-agent given only the property text and a scratch worktree",
             needs_to_manifest=needs,
             confirmed=dict(existing_tests_with_change="30 passed", demo_with_change="exit 1", demo_without_change="exit 0",
